@@ -36,6 +36,23 @@ func TestVerifConv(t *testing.T) {
 			base := ConvBase(r.Rng, i%2 == 1)
 			scns = append(scns, Disturb(r.Rng, base, r.Rng.Intn(4), r.Rng.Intn(3)))
 		}
+		// lifecycles whose desired state contains a PAUSED revision (generated after the others, so
+		// that those stay what they were for a given seed): every API call of every pass behind the
+		// pause as a single injection point in every mode (mode crash = the operator restarts while a
+		// revision is paused) for a few of them - the first a single revision with local phases, the
+		// second delegated - ...
+		np := r.Pick(2, 4)
+		for i := 0; i < np; i++ {
+			base := ConvPaused(r.Rng, i%2 == 1, i >= 2 && r.Rng.Intn(2) == 0)
+			scns = append(scns, base)
+			AllSingleFaults(base, func(s Scn) { scns = append(scns, s) })
+		}
+		// ... and random ones with 1-2 operator restarts and 0-2 faults behind the pause
+		m := r.Pick(120, 800)
+		for i := 0; i < m; i++ {
+			base := ConvPaused(r.Rng, i%2 == 1, r.Rng.Intn(2) == 0)
+			scns = append(scns, DisturbPaused(r.Rng, base, r.Rng.Intn(3), 1+r.Rng.Intn(2)))
+		}
 	}
 	// scenarios are independent (each has its own store and controllers): run them on all cores,
 	// emit in generation order
